@@ -52,8 +52,13 @@ def main():
                     torun.append(p)
             caught, undecided, clean = [], [], []
             t0 = time.time()
-            for p in torun:
-                rc, out = sh(f'/verif/bin/govc check --property {p} --tier quick', env=ENV)
+            from concurrent.futures import ThreadPoolExecutor
+            def runp(p):
+                e = dict(ENV, GOVC_OUT=OUT + '/' + p)
+                return p, sh(f'/verif/bin/govc check --property {p} --tier quick', env=e)
+            with ThreadPoolExecutor(max_workers=3) as ex:
+                outs = list(ex.map(runp, torun))
+            for p, (rc, out) in outs:
                 viol = [l for l in out.split('\n') if l.startswith('VIOLATION')]
                 und = [l for l in out.split('\n') if l.startswith('UNDECIDED')]
                 if viol:
